@@ -134,7 +134,9 @@ theorem op_no_new_conflict (sync : Bool) (bus : Bus) (o : Op) (x : Nat) :
   | restartDev y =>
     simp only [runOp, restartProc]
     have := responsive_restartAt bus y x
-    omega
+    split
+    · simp only; omega
+    · simp only; omega
   | read r => simp only [runOp]; omega
   | write => exact no_new_conflict sync bus x
 
